@@ -2,6 +2,7 @@ package props
 
 import (
 	"fmt"
+	"math"
 
 	"github.com/trajectoryjp/spatial_id_go/v4/common/object"
 	"github.com/trajectoryjp/spatial_id_go/v4/detector"
@@ -39,6 +40,46 @@ func runC09(c *core.Case) {
 	}
 	h3, v3 := genZoom(r), genZoom(r)
 	p := pt{genLon(r, hf), genLat(r, hf), genAlt(r, vf)}
+	if r.P(0.12) {
+		// a latitude on (or a few ulps beside) a row boundary of a coarse zoom, looked up at a fine zoom on the other side
+		// of 30/31 (where the line algorithm and any zoom-dependent numeric path switch): the two lookups must nest
+		hc = r.Range(18, 29)
+		hf = r.Range(30, 35)
+		half := pow2(hc - 1)
+		k := half + r.Range(-int64(0.1/360*float64(pow2(hc))), int64(0.1/360*float64(pow2(hc))))
+		if r.P(0.3) {
+			k = r.Range(1, pow2(hc)-1)
+		}
+		lat := ref.LatOfRow(float64(k), hc)
+		for u := r.Range(-3, 3); u != 0; {
+			if u > 0 {
+				lat = up(lat)
+				u--
+			} else {
+				lat = down(lat)
+				u++
+			}
+		}
+		p.lat = math.Max(-ref.MaxLat, math.Min(ref.MaxLat, lat))
+		// latitudes are stored on a 1e-10 degree lattice: search the lattice for a point that lies within ~1e-6 row of a
+		// boundary of the coarse zoom (these are the only inputs on which a last-bit difference between two evaluations
+		// of the Mercator row can change the row)
+		if r.P(0.7) {
+			best, bestD := p.lat, 1.0
+			for try := 0; try < 3000 && bestD > 2e-7; try++ {
+				kk := half + r.Range(-int64(0.1/360*float64(pow2(hc))), int64(0.1/360*float64(pow2(hc))))
+				t := math.Round(ref.LatOfRow(float64(kk), hc)*1e10) / 1e10
+				y := ref.YFloat(t, hc)
+				if d := math.Abs(y - math.Round(y)); d < bestD {
+					best, bestD = t, d
+				}
+			}
+			p.lat = best
+			c.Obs("lattice_boundary_distance_rows_sum", bestD)
+			c.Tag("lattice-point-on-row-boundary")
+		}
+		c.Tag("coarse-row-boundary")
+	}
 	o, err := object.NewPoint(p.lon, p.lat, p.alt)
 	if err != nil {
 		c.Fail("point-constructor", nil, "NewPoint(%v,%v,%v): %v", p.lon, p.lat, p.alt, err)
